@@ -171,6 +171,8 @@ Classes(f) ==
       [] k = "prefix" -> NumClasses \cup {"overfam"}
       [] k = "port" -> NumClasses \cup {"over"}
       [] f = "ratelimit/connection_limit/resume" -> NumClasses \cup {"incons"}
+      \* a size has no sign in its grammar ("-1KB" is a malformed token)
+      [] k = "size" -> NumClasses \ {"neg"}
       [] OTHER -> NumClasses
 
 \* The class of an unmutated field.
